@@ -82,8 +82,8 @@ def snapshot(st: Any) -> list:
 def _snapshot(st: Any) -> list:
     out: list = []
     for name in FIELDS:
-        if name in ('deck', 'hand_types', 'streets', 'automations'):
-            continue
+        if name in ('deck', 'hand_types', 'streets', 'automations') or name.startswith('_'):
+            continue    # public state only (the statement speaks of the observable state)
         out.append(('field', name))
         leaves(GET[name](st), out)
     return out
